@@ -258,6 +258,11 @@ func callWith(spec EngineSpec, c yae.Callable, env interface{}) (v *val.Val, dbg
 		ve.Dgb = rcd
 	}
 	v, err = c(ve)
+	if err != nil {
+		// rejected before anything was evaluated: the (reused) Record was not touched
+		// by this call, its contents say nothing about it
+		return v, "", err
+	}
 	return v, rcd.String(), err
 }
 
